@@ -23,7 +23,8 @@ RULE = (
     'deriver. Dynamic worlds: a step deletes a later step, generates a '
     'flow step, generates two legacy derivers, generates two Step objects '
     'without flow (they run first, one at a time, in declaration order), '
-    'adds / deletes glob children mid-phase.')
+    'adds / deletes glob children mid-phase; a step whose update '
+    'condition is false in one phase is not invoked then.')
 ASSUMPTIONS = [
     'flows are well-formed DAGs whose dependencies exist (the constructor '
     'rejects others)',
@@ -235,6 +236,11 @@ def world(n, edges, n_derivers, deriver_kind, placement, tss, dynamic=None):
                                'initial_state': {}}]}}},
                 '$else': {'outs': {'v_a': '$tokval'}}}
             extra = {'root': rel(loc, ())}
+        elif dynamic == 'quiet' and i == 0:
+            # step a's update condition is false in its 2nd phase: it is
+            # not invoked then, everything else runs as usual
+            spec['cond'] = {'$n': {1: False}, '$else': True}
+            extra = {}
         elif dynamic == 'kids' and i == 0:
             # step a adds a child in its 2nd run and deletes it in its 3rd
             spec['update'] = {
@@ -365,6 +371,8 @@ def check(spec, ex):
             expected = expected | {'new'}
             if spec['dynamic'] in ('gen-deriver', 'gen-steps'):
                 expected = expected | {'new2'}
+        if spec['dynamic'] == 'quiet' and phase_no == 1:
+            expected = expected - {'a'}
         if spec['dynamic'] == 'delete' and phase_no >= 1:
             victim = NAMES[n - 1]
             if phase_no >= 2 or True:
@@ -571,6 +579,9 @@ def jobs(ctx):
             for placement in (('flat', 'split') if ctx.quick
                               else PLACEMENTS):
                 out.append((n, edges, 0, 'steps', placement, (1,), 'kids'))
+            out.append((n, edges, 0, 'steps', 'flat', (1,), 'quiet'))
+            if n == 2 or not ctx.quick:
+                out.append((n, edges, 1, 'steps', 'comp', (1,), 'quiet'))
     if not ctx.quick:
         for edges in all_dags(5):
             out.append((5, edges, 0, 'steps', 'flat', (1,)))
